@@ -2,6 +2,8 @@
 (specs/LiquidVesting.tla on top of specs/Schedule.tla, harness/liquidvesting.go)."""
 import json
 import os
+import re
+import threading
 from vlib import *
 
 TRACE_CFG = "LiquidVestingTrace.cfg"
@@ -9,7 +11,7 @@ TRACE_MOD = "LiquidVestingTrace.tla"
 
 MANIFEST_ENTRY = dict(engine="LiquidVesting", design="§4 C11",
    technique="TLA+ spec LiquidVesting.tla (on Schedule.tla): TLC exhaustive checking of the split transcription on the whole small input space and of the ledger invariants / step clauses on all accepted message histories of the as-built machine; TLC-simulated behaviours and seeded random large histories executed on the real liquidvesting, vesting, bank and erc20 message servers; every recorded helper output and every recorded step validated by TLC against the property layer (trace validation)",
-   text="The split of a lockup schedule (SubtractAmountFromPeriods) is proved exact on every period list of up to 4 periods with amounts 0..4 and every requested amount, on the model and, line by line, on the real function (plus seeded 10^18-scale inputs of up to 8 periods). Liquidate / transfer / redeem histories over three holders with scripted block times are explored exhaustively on the as-built machine (backing, schedule-sums-to-supply, exact split by release instants, no-early-unlock on redeem compared at every critical instant) and replayed on the real keepers, whose stores (module balance, liquid supply and holdings incl. the ERC20 side, Denom records, vesting account records) are projected after every message and checked by TLC; after every redeem the recipient account object itself is asked what it locks at every critical instant (start/end time rule included) and the no-early-unlock clause is evaluated on those answers too; histories contain restarts of the module from its own exported genesis (after full redeems of older tokens), after which the same invariants and clauses apply.",
+   text="The split of a lockup schedule (SubtractAmountFromPeriods) is proved exact on every period list of up to 4 periods with amounts 0..4 and every requested amount, on the model and, line by line, on the real function (plus seeded 10^18-scale inputs of up to 8 periods). Liquidate / transfer / redeem histories over three holders with scripted block times are explored exhaustively on the as-built machine (backing, schedule-sums-to-supply, exact split by release instants, no-early-unlock on redeem compared at every critical instant) and replayed on the real keepers, whose stores (module balance, liquid supply and holdings incl. the ERC20 side, Denom records, vesting account records) are projected after every message and checked by TLC; after every redeem the recipient account object itself is asked what it locks at every critical instant (start/end time rule included) and the no-early-unlock clause is evaluated on those answers too; histories contain restarts of the module from its own exported genesis (after full redeems of older tokens), after which the same invariants and clauses apply; histories with many tokens in circulation at once (specs/LiquidVestingMany.tla: 11 to 23 tokens issued, so that the identifiers have one and two digits, then redeemed completely in every order on the model and in random orders on the real keepers, interleaved with transfers, partial redeems, further liquidations and restarts) are judged by the same invariants and frame clauses (the record, supply and holdings of every OTHER token are unchanged by a step).",
    note="Bounded by the constants in specs/LiquidVesting_*.cfg; messages run through MsgServiceRouter handlers on a cached context (baseapp.runMsgs semantics) with scripted block times, not through full DeliverTx; recipients have no delegations; locked amounts are derived from the recorded schedules through the denotation of Schedule.tla (the bank's own LockedCoins at the block time is compared as a diagnostic); TLC, the Json community module and the BigNum override are trusted.")
 
 # regression scenario of finding F2 (merge_min_start, repaired in /repo by c3dec7b; on a tree that has
@@ -71,6 +73,11 @@ def _gap(state):
     return any((not ex[i]) and any(ex[i + 1:]) for i in range(len(ex)))
 
 
+def _live(state):
+    """identifiers of the tokens in circulation"""
+    return [d["id"] for d in state["denoms"] if d["supply"] != "0"]
+
+
 def _validate(wd):
     res, r = validate_trace(wd, TRACE_MOD, TRACE_CFG, timeout=3000)
     n = count_lines(os.path.join(wd, "trace.ndjson"))
@@ -106,6 +113,8 @@ def _redeem_kind(prev, args):
 def _coverage(path, c):
     cov = dict(liquidate_ok=0, liquidate_other_ok=0, transfer_ok=0, redeem_partial_ok=0, redeem_full_ok=0,
                restarts=0, restarts_with_gap=0, redeem_after_restart_with_gap=0, redeem_into_shorter_lived=0,
+               steps_with_11_live_tokens=0, full_redeem_of_id_prefix_of_live_id=0, full_redeem_among_11_live=0,
+               restarts_with_11_live_tokens=0, drained_after_11_tokens=0, max_live_tokens=0,
                rejected=0, splits_ok=0, splits_rejected=0, splits_with_residue=0, helper_lines=0, redeem_into={})
     prev = None
     with open(path) as fh:
@@ -113,6 +122,8 @@ def _coverage(path, c):
             o = json.loads(line)
             ev = o["ev"]
             if ev == "reset":
+                if prev is not None and len(prev["denoms"]) >= 11 and not _live(prev) and prev["mod"] == "0":
+                    cov["drained_after_11_tokens"] += 1
                 prev = o["post"]
                 gapped = False
                 continue
@@ -131,8 +142,12 @@ def _coverage(path, c):
                 else:
                     cov["helper_lines"] += 1
                 continue
+            live = _live(prev)
+            cov["max_live_tokens"] = max(cov["max_live_tokens"], len(live))
+            cov["steps_with_11_live_tokens"] += 1 if len(live) >= 11 else 0
             if ev == "export_import":
                 cov["restarts"] += 1 if o["ok"] else 0
+                cov["restarts_with_11_live_tokens"] += 1 if o["ok"] and len(live) >= 11 else 0
                 if o["ok"] and _gap(prev):
                     cov["restarts_with_gap"] += 1
                     gapped = True
@@ -147,6 +162,11 @@ def _coverage(path, c):
                 d = [d for d in o["post"]["denoms"] if d["id"] == o["args"]["denom"]]
                 full = bool(d) and not d[0]["exists"]
                 cov["redeem_full_ok" if full else "redeem_partial_ok"] += 1
+                if full and len(live) >= 11:
+                    cov["full_redeem_among_11_live"] += 1
+                # the identifier of the token that goes away is the beginning of the identifier of a live one
+                if full and any(x != o["args"]["denom"] and x.startswith(o["args"]["denom"]) for x in live):
+                    cov["full_redeem_of_id_prefix_of_live_id"] += 1
                 cov["redeem_after_restart_with_gap"] += 1 if gapped else 0
                 ra = prev["acct"].get(o["args"]["to"])
                 pd = [x for x in prev["denoms"] if x["id"] == o["args"]["denom"]]
@@ -159,6 +179,8 @@ def _coverage(path, c):
                                       "post_recipient": o["post"]["acct"][o["args"]["to"]],
                                       "post_denom": d[0] if d else None, "post_mod": o["post"]["mod"]})
             prev = o["post"]
+    if prev is not None and len(prev["denoms"]) >= 11 and not _live(prev) and prev["mod"] == "0":
+        cov["drained_after_11_tokens"] += 1
     return cov
 
 
@@ -179,6 +201,16 @@ def run(c):
     #    every requested amount): SplitOK and never front-loading.  (b) every accepted history of
     #    liquidate / transfer / redeem on the intended machine satisfies P; on the as-built machine P
     #    fails only in the named class (compensated), and does fail there (strict: non-vacuity).
+    many_cfg, many_ntok = ("LiquidVestingMany_asbuilt.cfg", 11) if quick else ("LiquidVestingMany_asbuilt_thorough.cfg", 13)
+    many_res = {}
+
+    def _many():
+        try:
+            many_res["r"] = tlc_exhaustive(wd, "LiquidVestingMany.tla", many_cfg, workers=2, timeout=3000)
+        except Exception as ex:     # reported by the main thread
+            many_res["err"] = ex
+    many = threading.Thread(target=_many)
+    many.start()
     r = tlc_exhaustive(wd, "LiquidVesting.tla", "LiquidVesting_split.cfg", workers=4, timeout=900)
     c.add_tlc("LiquidVesting_split.cfg", r)
     if r.distinct < 7000:
@@ -196,6 +228,20 @@ def run(c):
     for cfg in ("LiquidVesting_defect_strict.cfg", "LiquidVesting_defect2_strict.cfg"):
         r = tlc_exhaustive(wd, "LiquidVesting.tla", cfg, must="fail", workers=4)
         c.add_tlc(cfg, r)
+    #    (c) many tokens in circulation at once (LiquidVestingMany.tla): NTok tokens issued, then every order
+    #    in which they are redeemed completely (2^NTok ledgers), all of P; the search depth shows that the
+    #    drains end (issue + drain + 1), thorough: NotDrained must fail (the ledger does end empty)
+    many.join()
+    if many_res.get("err"):
+        raise many_res["err"]
+    r = many_res["r"]
+    c.add_tlc(many_cfg, r)
+    m = re.search(r"depth of the complete state graph search is (\d+)", r.out)
+    if r.distinct < 2 ** many_ntok or not m or int(m.group(1)) < 2 * many_ntok + 1:
+        raise Infra("many-token exploration smaller than expected: %d states, depth %s" % (r.distinct, m and m.group(1)))
+    if not quick:
+        r = tlc_exhaustive(wd, "LiquidVestingMany.tla", "LiquidVestingMany_drained.cfg", must="fail", workers=4, timeout=1500)
+        c.add_tlc("LiquidVestingMany_drained.cfg", r)
 
     # 2. spec -> code: behaviours of the as-built machine as scripts (two initial configurations), the
     #    regression scenario of finding F2, the enumerated split inputs and seeded random inputs
@@ -206,6 +252,12 @@ def run(c):
         if len(sc) < nscripts // 2:
             raise Infra("too few scripts generated from %s: %d" % (cfg, len(sc)))
         scripts += [{"cfg": s["cfg"], "steps": [{"ev": st["ev"], "args": st["args"]} for st in s["steps"]]} for s in sc]
+    #    histories with many tokens (issue 12, then drain): 32 steps each
+    nmany = 12 if quick else 40
+    sc, _ = tlc_scripts(wd, "LiquidVestingMany.tla", "LiquidVestingMany_sim.cfg", nmany, 32, c.seed)
+    if len(sc) < nmany // 2:
+        raise Infra("too few scripts generated from LiquidVestingMany_sim.cfg: %d" % len(sc))
+    scripts += [{"cfg": s["cfg"], "steps": [{"ev": st["ev"], "args": st["args"]} for st in s["steps"]]} for s in sc]
     scripts.append(REPRO_F2)
     scripts.append(REPRO_F17)
     scripts.append(REG_RESTART)
@@ -214,7 +266,8 @@ def run(c):
     nrandom = 80 if quick else 1500
     npure = 1500 if quick else 40000
     hv(["liquidvesting", "--enum", "4,4", "--pure-random", str(npure), "--scripts", "scripts.json",
-        "--random", str(nrandom), "--steps", "10" if quick else "16", "--seed", str(c.seed),
+        "--random", str(nrandom), "--steps", "10" if quick else "16",
+        "--many", "12" if quick else "60", "--tokens", "12", "--seed", str(c.seed),
         "--out", "trace.ndjson"], cwd=wd, timeout=6000)
 
     # 3. code -> spec
@@ -227,6 +280,8 @@ def run(c):
     c.extra["accepted_splits_validated"] = res["stats"]["splits"]
     c.extra["scripts_replayed"] = len(scripts)
     c.extra["random_scenarios"] = nrandom
+    c.extra["many_token_scripts"] = len(sc)
+    c.extra["many_token_random_scenarios"] = 12 if quick else 60
     c.extra["coverage"] = cov
     c.extra["conformance_divergences"] = res["div"][:20]
     c.extra["conformance_divergence_count"] = len(res["div"])
@@ -263,7 +318,8 @@ def run(c):
     floors = [("liquidate_ok", 100), ("liquidate_other_ok", 20), ("transfer_ok", 20), ("redeem_partial_ok", 50),
               ("redeem_full_ok", 30), ("splits_ok", 6000), ("splits_with_residue", 1000), ("splits_rejected", 500),
               ("helper_lines", 500), ("restarts_with_gap", 5), ("redeem_after_restart_with_gap", 5),
-              ("redeem_into_shorter_lived", 5)]
+              ("redeem_into_shorter_lived", 5), ("steps_with_11_live_tokens", 100), ("full_redeem_among_11_live", 10),
+              ("full_redeem_of_id_prefix_of_live_id", 5), ("drained_after_11_tokens", 5)]
     thin = ["%s = %d < %d" % (k, cov[k], n) for k, n in floors if cov[k] < n]
     classes = {k: n for k, n in res["stats"]["redeems"].items() if k != "none"}
     classes["both-running"] = cov["redeem_into"].get("both-running", 0)
